@@ -10,7 +10,8 @@ from a drawn seed), a cyclic (stream, chunk size) send pattern executed by one s
 sendall / sendall_stderr, then send_exit_status (server->client channels) and shutdown_write; two
 reader threads with their own cyclic read-size patterns; combine_stderr none / before the transfer /
 switched on by the main thread once half of the channel's bytes were read. 0-2 renegotiate_keys()
-calls (either side, one at a time) while the transfers run. Channels are only closed after the
+calls (either side, one at a time: a client round trip under the new keys follows each, so that BOTH sides are through before
+the next one starts) while the transfers run. Channels are only closed after the
 rekeys have finished (the transports are shut down at the end of the case), which keeps the
 transport-thread-reply findings of C11 out of this check.
 
@@ -172,6 +173,26 @@ def run_case(ctx, case):
             return
         if v is None:
             return
+    if v[0] == "transfer-completes" and v[1].startswith("thread-error"):
+        # a thread of the transfer failed (sender raised / reader error): whether that happens can depend on thread timing and
+        # machine load, so - like every time/thread-dependent verdict - it needs two confirming re-runs in fresh sessions
+        details = [v[2]]
+        for _ in range(2):
+            v2 = run_once(ctx, case)
+            if v2 is None or not (v2[0] == "transfer-completes" and v2[1].startswith("thread-error")):
+                ctx.inconc("thread-error-not-reproduced")
+                ctx.note("last_unreproduced_thread_error", v[2][:1500])
+                v = v2
+                break
+            details.append(v2[2])
+        else:
+            ctx.violation(v[0], v[1], case, " || ".join(details)[:3800])
+            return
+        if v is None:
+            return
+        if v[0] == "stalled":  # a different time-based verdict in the re-run: not confirmed either
+            ctx.inconc("stall-not-reproduced")
+            return
     ctx.violation(v[0], v[1], case, v[2])
 
 
@@ -229,6 +250,13 @@ def run_once(ctx, case):
         def do_rekey(side):
             try:
                 (tc if side == "c" else ts).renegotiate_keys()
+                # "one at a time" for BOTH sides: renegotiate_keys() returns when the caller's side has switched keys; the other
+                # side may still be waiting for the caller's NEWKEYS.  A renegotiate_keys() issued there in that window makes it
+                # send two KEXINITs and ends the session (a re-exchange defect, C11's subject - reported there; deterministic demo
+                # /tmp/c11-renegotiate-while-peer-exchange-finishing.py), which under load showed up here as senders failing
+                # with "Socket is closed".  A client round trip under the new keys is answered only after both sides are through.
+                if tc.global_request("verif-sync@verif", wait=True) is None:
+                    raise peers.paramiko.SSHException("barrier round trip after renegotiate_keys failed: client %r server %r" % (tc.get_exception(), ts.get_exception()))
                 rk["done"] += 1
             except Exception as e:
                 rk["err"] = repr(e)
@@ -273,7 +301,12 @@ def run_once(ctx, case):
         for ch in chans:
             tag = "chan%d/%d:%s:combine=%s" % (ch.idx, len(chans), ch.spec["dir"], ch.spec["combine"])
             if ch.res.get("sender") != "done" or ch.res.get(0) != "eof" or ch.res.get(1) != "eof":
-                return ("transfer-completes", "thread-error:" + str(ch.res.get("sender"))[:30], "%s: %r" % (tag, ch.res))
+                return (
+                    "transfer-completes",
+                    "thread-error:" + str(ch.res.get("sender"))[:30],
+                    "%s: %r; client transport active=%s exception=%r; server transport active=%s exception=%r; rekeys done %d of %d; all channels %r"
+                    % (tag, ch.res, tc.is_active(), tc.get_exception(), ts.is_active(), ts.get_exception(), rk["done"], len(case["rekeys"]), [(c.tx, c.rx, c.res) for c in chans]),
+                )
             if not ch.combined:
                 ch.rchan.set_combine_stderr(True)
                 ch.combined = True
@@ -772,6 +805,7 @@ def run(ctx):
     ctx.assume("channels are closed only after all re-exchanges have finished (C11's findings are excluded by construction)")
     ctx.exclude("channel close / want_reply requests during a re-exchange (C11 findings)")
     ctx.exclude("server-side send racing the server's own delayed-compression switch right after USERAUTH_SUCCESS")
+    ctx.exclude("renegotiate_keys() on one side while the other side's re-exchange is still unfinished there (C11's subject): a round-trip barrier follows every rekey")
     cap = (3 << 19) if ctx.quick else (3 << 20)
     ctx.explore(case_strategy(cap), lambda c: run_case(ctx, c), ctx.scale(45, 320), shrink=False)
     # E4 (deterministic, shrinking on): set_combine_stderr(True) interleaved with arriving data at lock / line level
